@@ -538,6 +538,79 @@ def _disjuncts(c):
     return [c]
 
 
+def for_wrap_rule(ctx):
+    """`wrapped_element.unwrap()` in the wx:for wrapping of Element::parse: with a for-list present the branch classification can
+    only be `None` or `If`, and those are exactly the arms of the wx:if wrapping that always hand an element on.  The
+    classification is tabulated by abstract interpretation over (allow_for_if, for-list present, wx:if / wx:elif / wx:else
+    present)."""
+    import absint as ai
+    ob = ctx.ob
+    tc = ctx.tc
+    ep = [g for g in tc.fns if g.base == "Element" and g.name == "parse" and g.body]
+    if not ep:
+        return []
+    g = ep[0]
+    where = ctx.where(g)
+    decl = [n for n in sir.walk(g.node, into_items=True) if n.get("k") == "local" and n["pat"].get("name") == "if_condition" and n.get("init") is not None]
+    wrap = [n for n in sir.walk(g.node, into_items=True) if n.get("k") == "match" and sir.expr_str(sir.strip_ref(n["e"])) == "if_condition"]
+    unwraps = [n for n in sir.walk(g.node, into_items=True) if n.get("k") == "mcall" and n["m"] in ("unwrap", "expect") and sir.expr_str(n["recv"]) == "wrapped_element"]
+    if not unwraps:
+        return [ob("C01.panic/side/for-wrap", True, where, "the wx:for wrapping does not unwrap the element handed on by the wx:if wrapping")]
+    if len(decl) != 1 or len(wrap) != 1:
+        return [ob("C01.panic/side/for-wrap", None, where, "the branch classification / wx:if wrapping is not in a form this rule reads")]
+
+    def hooks(it, e, st):
+        if e.get("k") == "mcall" and e["m"].startswith("add_warning"):
+            return [(ai.UNIT, st)]
+        return None
+    F = ai.FREE
+    under_for = set()
+    und = False
+    for allow in (True, False):
+        for wi in (("Some", ("T", (F, F))), ai.NONE):
+            for we in (("Some", ("T", (F, F))), ai.NONE):
+                for wl in (("Some", F), ai.NONE):
+                    env = {"allow_for_if": allow, "for_list": ("E", "For", (("list", F),)), "wx_if": wi, "wx_elif": we, "wx_else": wl, "ps": F}
+                    try:
+                        outs = ai.Interp(hooks=hooks, idx=tc).run(decl[0]["init"], env)
+                    except ai.TooManyPaths:
+                        outs = []
+                    if not outs:
+                        und = True
+                    for o in outs:
+                        v = o.value
+                        if isinstance(v, tuple) and v[:1] == ("E",) and not o.tainted:
+                            under_for.add(v[1])
+                        else:
+                            und = True
+    # arms of the wx:if wrapping that always yield Some(..)
+    always = set()
+    for a in wrap[0]["arms"]:
+        leaves = []
+
+        def collect(e_):
+            while e_.get("k") == "block" and e_["stmts"]:
+                l_ = e_["stmts"][-1]
+                e_ = l_["e"] if l_.get("k") == "expr" else l_
+            if e_.get("k") == "match":
+                for a_ in e_["arms"]:
+                    collect(a_["body"])
+            elif e_.get("k") == "if" and e_.get("else") is not None:
+                collect(e_["then"])
+                collect(e_["else"])
+            else:
+                leaves.append(e_)
+        collect(a["body"])
+        if leaves and all(l_.get("k") == "call" and sir.call_name(l_) == "Some" for l_ in leaves):
+            always |= set(sir.pat_variants(a["pat"]))
+    if und:
+        return [ob("C01.panic/side/for-wrap", None, where, "the branch classification depends on a construct outside the interpreted fragment")]
+    bad = sorted(under_for - always)
+    return [ob("C01.panic/side/for-wrap", not bad, where, "with a wx:for list the branch classification is one of %s; the wx:if wrapping always hands an element on for %s" % (sorted(under_for), sorted(always)) if not bad
+               else "with a wx:for list the element can be classified as %s, for which the wx:if wrapping may hand on nothing: `wrapped_element.unwrap()` panics" % bad,
+               witness=None if not bad else "<a wx:if=\"{{x}}\"/><b wx:for=\"{{l}}\" wx:elif=\"{{y}}\"/>")]
+
+
 def side_conditions_rule(ctx):
     """the guards that the reviewed table relies on are re-established mechanically on every run"""
     ob = ctx.ob
@@ -732,6 +805,7 @@ def side_conditions_rule(ctx):
                     verdict = okall
                     why = "the tag `%s` is produced at %d place(s), each under `%s(%r)` of the attribute name itself: %s" % (tag, len(sites), test, lit, okall)
             obs.append(ob(key, verdict, ctx.where(g), why, witness=None if verdict is not False else "<view Data-id=\"1\"/>: the guard accepts a name the unwrap cannot strip"))
+    obs += for_wrap_rule(ctx)
     from rules.c05 import check_mirror, slot_key_rule
     for x in check_mirror(ctx) + slot_key_rule(ctx):
         x = dict(x)
